@@ -204,6 +204,7 @@ int main(int argc, char **argv) {
     trapInit(argv[0]);
 #endif
     constMemInit();
+    ambientFixDefault();
     std::string cmd = argv[1];
     if (cmd == "run") return cmdRun(argc, argv);
     if (cmd == "replay") return cmdReplay(argc, argv);
